@@ -114,8 +114,8 @@ func (v *Vue) evalTemplate(ctx VueContext, nodes []*html.Node, componentData map
 			key := attr.Key
 			val := strings.TrimSpace(attr.Val)
 
-			// Skip directive attributes
-			if strings.HasPrefix(key, "v-") {
+			// Skip directive attributes (v-bind:name is the long form of :name, handled below)
+			if strings.HasPrefix(key, "v-") && !strings.HasPrefix(key, "v-bind:") {
 				continue
 			}
 
